@@ -451,3 +451,6 @@ def main(sess):
     for name, f in (('wiring', fam_wiring), ('substr', fam_substr), ('args', fam_args)):
         if not only or name in only:
             f(sess)
+    if not only or 'e2e' in only:
+        from drivers import e2e
+        e2e.family_for(sess, 'C16', quick_n=2)
